@@ -20,7 +20,7 @@ while IFS=$'\t' read -r name prop dir patch expect; do
   else
     (cd "$T/repo" && patch -p1 -s < "$VERIF/selftest/mutants/$patch") >/dev/null 2>&1 || { echo "SELFTEST $name: patch does not apply (skipped)"; rm -rf "$T"; continue; }
   fi
-  out=$("$VERIF/bin/govc" -repo "$T/repo" -verif "$VERIF" -out "$T/out" -prop "$prop" -tier quick -evidence=false 2>&1); rc=$?
+  out=$(GOVC_NO_RETRY=1 "$VERIF/bin/govc" -repo "$T/repo" -verif "$VERIF" -out "$T/out" -prop "$prop" -tier quick -evidence=false 2>&1); rc=$?
   rm -rf "$T"
   n=$((n+1))
   if [ "$MODE" = "discover" ]; then
